@@ -295,6 +295,10 @@ func (h *H) on(c call) answer {
 	}
 	c.visit = h.visits[c.node] - 1
 	h.calls = append(h.calls, c)
+	if len(h.calls) > 600 {
+		core.Problem("the run does not terminate: more than 600 callbacks (last: %s)", c)
+		panic("harness: runaway execution stopped")
+	}
 	core.Logf("call %s prep=%s exec=%s err=%v", c, descVal(c.prepVal), descVal(c.execVal), c.err)
 	if h.preCall != nil {
 		h.preCall(h, c)
@@ -627,4 +631,12 @@ func (h *H) countAction(a flyt.Action) int {
 		}
 	}
 	return n
+}
+
+// nextRun starts another run on the same node objects.
+func (h *H) nextRun() {
+	h.hist = append(h.hist, h.traceString())
+	h.answers, h.calls = nil, nil
+	h.visits = map[*spec]int{}
+	h.runNo++
 }
